@@ -257,7 +257,7 @@ theorem signAtts_propInv {s : Inst} (hinv : PropInv s) (c : String) (items : Lis
         · exact hinv
         · unfold attestKeyed finishKeyed
           have base := propInv_db_only hinv _ (pcovers_of_fetch_eq (rulesKeyed_prop_frame s.db
-            (okItems (preCheckAll s.cfg c opAttest items)) f))
+            (okItems (preCheckAll s.cfg c opAttest items f.lockStateFail)) f))
           split
           · exact base
           · exact ⟨base.covered, base.mono⟩
